@@ -14,7 +14,7 @@ EXPLANATION = (
     "enqueues an ACK; (T-SEQTBL) is_seq_ok itself, reduced to a formula over its arguments, is the four-row decision "
     "table of RFC 9293 Table 6 on (SEG.LEN = 0, RCV.WND = 0) in the revision the code cites (lower edge RCV.NXT-1): "
     "first-or-last-byte-in-window for data, nothing acceptable but ACKs on a zero window, bounds compared as linear "
-    "forms modulo 2^32 (the comparator it relies on is decided under C12 Q-PRIM); (T-ACKEST) ack_established_processing, as a formula with the comparators inlined, agrees with RFC 9293 3.10.7.4 (duplicate ACK ignored, ACK of unsent data answered and dropped, otherwise SND.UNA advanced, queue pruned and the window updated exactly under WL1 < SEQ or (WL1 = SEQ and WL2 =< ACK)) on every combination of critical positions; (T-INFLIGHT) the octets subtracted from SND.WND, Outgoing::queued_bytes, count every entry of the retransmission queue (no filtering or partial iteration); (T-SYNSENT) in SYN-SENT a segment with neither SYN nor RST reaches no write of state, RCV.* or "
+    "forms modulo 2^32 (the comparator it relies on is decided under C12 Q-PRIM); (T-ACKEST) ack_established_processing, as a formula with the comparators inlined, agrees with RFC 9293 3.10.7.4 (duplicate ACK ignored, ACK of unsent data answered and dropped, otherwise SND.UNA advanced, queue pruned and the window updated exactly under WL1 < SEQ or (WL1 = SEQ and WL2 =< ACK)) on every combination of critical positions; (T-CLOSED, T-LISTEN) segment_arrives_closed and segment_arrives_listen, as formulas, are the case tables of RFC 9293 3.10.7.1 / 3.10.7.2 (which resets are sent with which SEQ/ACK, how the new TCB's sequence spaces are initialised from the SYN); (T-INFLIGHT) the octets subtracted from SND.WND, Outgoing::queued_bytes, count every entry of the retransmission queue (no filtering or partial iteration); (T-SYNSENT) in SYN-SENT a segment with neither SYN nor RST reaches no write of state, RCV.* or "
     "the receive buffer; (T-WINDOW) the amount of new data cut for transmission depends through min() on SND.WND minus "
     "the bytes in flight; (P-PANIC) panic sites reachable from the segment entry points whose operands depend on "
     "header fields or text length (see C14 machinery). Decides these structural clauses for all segment sequences; "
@@ -84,6 +84,7 @@ def run(ctx):
     from . import seqprims
     seqprims.check_seq_ok(ctx, "T-SEQTBL")
     seqprims.check_ack_processing(ctx, "T-ACKEST")
+    seqprims.check_closed_listen(ctx)
     t_inflight(ctx)
     run_panics(ctx)
 
